@@ -162,6 +162,8 @@ def check(src, rep):
                f"({', '.join(sorted({str(h).split(':')[0] for h in subs.values() if h}))[:200]})")
         for (f, l, t), h in sorted(subs.items()):
             rep.ok("R1", f"subscript {f}:{t}", h)
+    from sa.cross import include
+    include(rep, src, "C16", {"R1", "R2", "R3"}, "R3", "after noise the reader remains usable")
     rep.floor("entry points", n_entry, 13)
     rep.floor("index subscripts on the read paths", n_sub, 8)
     # ---------------------------------------------------------------- R2 loops progress
